@@ -65,7 +65,7 @@ def run_shard(ctx):
             ctx.stats.label(label)
         return False, fp, None, []
 
-    explore(ctx, cr.strategy(force_fsync=True), run_one, 60 if quick else 8000)
+    explore(ctx, cr.strategy(force_fsync=True), run_one, 120 if quick else 8000)
     ctx.stats.extra['pairs'] = ctx.stats.hist.get('pair-exhaustive', 0)
     ctx.stats.extra['every_event_of_every_pair_used'] = True
     ctx.stats.evaluations -= ctx.stats.extra['pairs'] + ctx.stats.hist.get('pair-skipped', 0)
